@@ -1,6 +1,7 @@
 package main
 
 import (
+	"strconv"
 	"fmt"
 	"go/ast"
 	"go/parser"
@@ -75,6 +76,66 @@ func funcKey(fd *ast.FuncDecl) string {
 		}
 	}
 	return fd.Name.Name
+}
+
+// contractTarget: a function body under contract: a declared function, or a
+// function literal that is the value of a string-keyed entry of a composite
+// literal inside a declared function (contract key Func["key"]), presented as
+// a synthetic declaration with the enclosing function's receiver.
+type contractTarget struct {
+	fd *ast.FuncDecl
+	c  *Contract
+}
+
+func contractTargets(f *ast.File, byKey map[string]*Contract) []contractTarget {
+	var out []contractTarget
+	for _, d := range f.Decls {
+		fd, ok := d.(*ast.FuncDecl)
+		if !ok || fd.Body == nil {
+			continue
+		}
+		key := funcKey(fd)
+		if c := byKey[key]; c != nil {
+			out = append(out, contractTarget{fd, c})
+		}
+		for _, k := range sortedKeys(byKey) {
+			if !strings.HasPrefix(k, key+"[\"") || !strings.HasSuffix(k, "\"]") {
+				continue
+			}
+			name := k[len(key)+2 : len(k)-2]
+			if lit := keyedFuncLit(fd.Body, name); lit != nil {
+				out = append(out, contractTarget{&ast.FuncDecl{Recv: fd.Recv, Name: ast.NewIdent(fd.Name.Name + "[\"" + name + "\"]"), Type: lit.Type, Body: lit.Body}, byKey[k]})
+			}
+		}
+	}
+	return out
+}
+
+// keyedFuncLit: the first function literal inside the value of the entry
+// "name": ... of a composite literal in body.
+func keyedFuncLit(body *ast.BlockStmt, name string) *ast.FuncLit {
+	var found *ast.FuncLit
+	ast.Inspect(body, func(n ast.Node) bool {
+		if found != nil {
+			return false
+		}
+		kv, ok := n.(*ast.KeyValueExpr)
+		if !ok {
+			return true
+		}
+		bl, ok := kv.Key.(*ast.BasicLit)
+		if !ok || bl.Kind != token.STRING || bl.Value != strconv.Quote(name) {
+			return true
+		}
+		ast.Inspect(kv.Value, func(m ast.Node) bool {
+			if fl, ok := m.(*ast.FuncLit); ok && found == nil {
+				found = fl
+			}
+			return found == nil
+		})
+		return false
+	})
+	return found
 }
 
 // collectLoops returns the for/range statements of a body in source order,
@@ -187,15 +248,8 @@ func buildOverlay(pkgDir string) (*OverlayResult, error) {
 	for _, file := range pf.files {
 		path, src, f := file.path, file.src, file.ast
 		var ins []insertion
-		for _, d := range f.Decls {
-			fd, ok := d.(*ast.FuncDecl)
-			if !ok || fd.Body == nil {
-				continue
-			}
-			c := byKey[funcKey(fd)]
-			if c == nil {
-				continue
-			}
+		for _, it := range contractTargets(f, byKey) {
+			fd, c := it.fd, it.c
 			c.Used = true
 			off := func(p token.Pos) int { return fset.Position(p).Offset }
 			var sb strings.Builder
